@@ -41,4 +41,14 @@ theorem window_lines :
        "if limit > len(rs)-offset { limit = len(rs) - offset }",
        "rs = rs[offset : offset+limit : offset+limit]"] := by decide
 
+/-- **the stage order of `exec()`** (engine-level calls in source order): the dual shortcut (`ExecSelect` on the single
+    scoped row), then per element of the source either the recursion into an inner array (`copy.exec`, `query.adopt`) or
+    `ExecWhere`; then `ExecGroupBy` → `ExecSelect` → (slot resolution) → `ExecDistinct` → `ExecOrderBy` → the window
+    slice.  This is the order `Pipeline.select_pipeline` states for the model: WHERE → select list → DISTINCT → ORDER BY →
+    window, each on the whole output of the previous stage. -/
+theorem exec_stage_order :
+    decisionsStages =
+      ["ExecSelect", "copy.exec", "query.adopt", "ExecWhere", "ExecGroupBy", "ExecSelect", "resolveAsyncSlots",
+       "ExecDistinct", "ExecOrderBy", "slice:rs[offset : offset+limit : offset+limit]"] := by decide
+
 end Genql.Obligations.C05
